@@ -18,6 +18,7 @@ sys.path.insert(0, os.path.join(V.VERIF, "gen"))
 import c02_xmlchar as TX  # noqa
 import c02_errs as TE  # noqa
 import C02_gen as G  # noqa
+import C02_dtd as GD  # noqa
 
 APIS = ["sax", "sax2", "dom", "ls"]
 SCANNERS = ["WF", "IG", "DG", "SG"]
@@ -436,6 +437,9 @@ def correspond(ctx, xh, xm, xd, codes, jobs, thorough, proof_broken, failed, out
     if ctx.replay:
         r = json.load(open(ctx.replay))
         req = r.get("request", "")
+        if r.get("expect") is not None and req.startswith("parse "):
+            replay_expect(ctx, xh, r)
+            return
         if not req.startswith("parse "):
             ctx.note("replay file carries no parse request; re-running the whole check")
         else:
@@ -461,10 +465,95 @@ def correspond(ctx, xh, xm, xd, codes, jobs, thorough, proof_broken, failed, out
     nreq = run_cases(ctx, xh, xm, cases, jobs, cfgs)
     ctx.coverage["traces_validated_against_impl"] = nreq
     judge(ctx, cases, cfgs, for_c03)
+    nreq += doctype_stream(ctx, xh, jobs, 150 if not thorough else 5000)
+    ctx.coverage["traces_validated_against_impl"] = nreq
     if proof_broken and not ctx.violations:
         ctx.violation("obligation", {"what": "Coq obligation no longer checks and no failing input was found by the "
                                      "correspondence", "failed": failed, "output": out[-3000:]}, no_input=True)
     ctx.note("correspondence: %d cases, %d parser runs, %.1fs" % (len(cases), nreq, time.time() - t0))
+
+
+def replay_expect(ctx, xh, r):
+    """replay of a case whose oracle is an explicit expectation (DOCTYPE stream, large line-end documents, ...)"""
+    o = run_lines(xh, [r["request"]])[0]
+    ev, errs, fh = parse_impl(o)
+    ex = r["expect"]
+    ctx.count()
+    fatal = fatal_count(errs) > 0
+    if fatal != ex["fatal"] or (not fatal and ex.get("events") is not None and ev != ex["events"]):
+        ctx.violation(r.get("tag", "divergence"), {"what": r.get("what", "replayed case still fails"),
+                                                   "request": r["request"], "impl": [ev, errs, fh], "expect": ex})
+
+
+def doctype_stream(ctx, xh, jobs, ndocs):
+    """documents with an internal DTD subset (gen/C02_dtd.py): the verdict prescribed by XML 1.0 section 4.1 (WFC Entity
+    Declared applies iff no PE reference in the internal subset or standalone='yes'), the events obtained by expanding
+    the entities, agreement of the four APIs and of the IG and DG scanners (WF and SG are documented to skip the
+    DOCTYPE and are not held to these documents); malformed DOCTYPE documents must be fatal"""
+    rng = ctx.rng
+    lines, meta = [], []
+    docs = []
+    for i in range(ndocs):
+        d = GD.gen(rng)
+        s = GD.render(d, rng)
+        docs.append((d, s))
+        for sc in ("IG", "DG"):
+            for ns in (0, 1):
+                for a in APIS:
+                    lines.append("parse %s %s %d %s" % (a, sc, ns, bhex(s.encode("utf-8"))))
+                    meta.append((i, a, sc, ns))
+    muts = []
+    for rep in range(3 if ctx.tier == "quick" else 40):
+        muts += GD.mutants(rng)
+    for j, (name, s) in enumerate(muts):
+        for sc in ("IG", "DG"):
+            for a in APIS:
+                ns = (j + len(a)) % 2
+                lines.append("parse %s %s %d %s" % (a, sc, ns, bhex(s.encode("utf-8"))))
+                meta.append((("m", j), a, sc, ns))
+    out = run_lines(xh, lines, jobs)
+    dist = ctx.coverage.setdefault("input_distribution", {})
+    nv = {"doctype-verdict": 0, "doctype-events": 0, "doctype-mutant": 0}
+    res = {}
+    for (i, a, sc, ns), req, o in zip(meta, lines, out):
+        ctx.count()
+        ev, errs, fh = parse_impl(o)
+        fatal = fatal_count(errs) > 0
+        if isinstance(i, tuple):
+            name, s = muts[i[1]]
+            dist["doctype-mutant/" + name] = dist.get("doctype-mutant/" + name, 0) + 1
+            ctx.distinct(("dtd-mutant", s))
+            if not fatal or fh == 0:
+                nv["doctype-mutant"] += 1
+                if nv["doctype-mutant"] <= 2:
+                    ctx.violation("doctype-mutant", {
+                        "what": "malformed document with DOCTYPE (%s) accepted without a fatal error by %s/%s" % (name, a, sc),
+                        "request": req, "impl": [ev, errs, fh], "expect": {"fatal": True}, "document": s})
+            continue
+        d, s = docs[i]
+        ef = GD.expected_fatal(d)
+        ee = None if ef else GD.expected_events(d)
+        kind = "doctype/%s/%s/%s" % ("fatal" if ef else "ok", "peref" if d.has_peref else "nope", d.standalone)
+        dist[kind] = dist.get(kind, 0) + 1
+        ctx.distinct(("dtd", s, sc, ns))
+        res[(i, a, sc, ns)] = (ev, errs)
+        if fatal != ef:
+            nv["doctype-verdict"] += 1
+            if nv["doctype-verdict"] <= 3:
+                ctx.violation("doctype-verdict", {
+                    "what": ("%s/%s namespaces=%d reports a fatal error for a well-formed document: an undeclared entity "
+                             "reference is only a validity matter when the internal subset has a parameter-entity "
+                             "reference and standalone is not 'yes' (XML 1.0 4.1)" if fatal else
+                             "%s/%s namespaces=%d accepts a document that violates WFC Entity Declared") % (a, sc, ns),
+                    "request": req, "impl": [ev, errs, fh], "expect": {"fatal": ef, "events": ee}, "document": s})
+        elif not ef and (ev != ee or [e for e in errs if e.startswith("E:")]):
+            nv["doctype-events"] += 1
+            if nv["doctype-events"] <= 3:
+                ctx.violation("doctype-events", {
+                    "what": "%s/%s namespaces=%d: content differs from the entity-expanded document" % (a, sc, ns),
+                    "request": req, "impl": [ev, errs, fh], "expect": {"fatal": False, "events": ee}, "document": s})
+    ctx.coverage["doctype_stream"] = {"documents": ndocs, "malformed": len(muts), "parser_runs": len(lines)}
+    return len(lines)
 
 
 WITNESS_RULE = {   # finding -> predicate on (errors, fh) of a witness run saying that the defect shows
